@@ -89,6 +89,19 @@ fn run_case(line: &str) -> String {
     let comp = it.next().unwrap_or("");
     let rest = it.next().unwrap_or("");
     match comp {
+        "pair" => {
+            // pair <partA> <partB> <component> <case...> : the same case under two partitions of its input
+            let mut it2 = rest.splitn(3, ' ');
+            let a = it2.next().unwrap_or("w").to_string();
+            let b = it2.next().unwrap_or("b").to_string();
+            let inner = it2.next().unwrap_or("");
+            util::PART_OVERRIDE.with(|p| *p.borrow_mut() = Some(a));
+            let ra = run_case(inner);
+            util::PART_OVERRIDE.with(|p| *p.borrow_mut() = Some(b));
+            let rb = run_case(inner);
+            util::PART_OVERRIDE.with(|p| *p.borrow_mut() = None);
+            format!("{} ### {}", ra, rb)
+        }
         "time" => c_time::run(rest),
         "amf0" => c_amf0::run(rest),
         "chunk" => c_chunk::run(rest),
@@ -135,6 +148,9 @@ fn main() {
             *c = l2.clone();
         }
         CASE_STARTED_MS.store(now_ms(), Ordering::Relaxed);
+        let base = CURRENT.load(Ordering::Relaxed);
+        PEAK.store(base, Ordering::Relaxed);
+        LARGEST.store(0, Ordering::Relaxed);
         let obs = match panic::catch_unwind(move || run_case(&l2)) {
             Ok(s) => s,
             Err(e) => {
@@ -153,6 +169,8 @@ fn main() {
         text.push_str(line);
         text.push('\t');
         text.push_str(&obs);
+        // third field: peak live bytes above the level at the start of the case, largest single allocation request
+        text.push_str(&format!("\t~{}~{}", PEAK.load(Ordering::Relaxed).saturating_sub(base), LARGEST.load(Ordering::Relaxed)));
         text.push('\n');
         out.write_all(text.as_bytes()).unwrap();
     }
